@@ -15,6 +15,7 @@ mod c13;
 mod c19;
 mod cxxharness;
 mod c14;
+mod c07;
 mod backhalf;
 pub mod compile;
 
@@ -112,6 +113,7 @@ fn main() {
                 "C13" => c13::run(&tier, seed),
                 "C19" => c19::run(&tier, seed),
                 "C14" => c14::run(&tier, seed),
+                "C07" => c07::run(&tier, seed),
                 _ => {
                     eprintln!("unknown property {prop}");
                     2
